@@ -314,6 +314,25 @@ fn main() {
                         DifficultyAttributes::Mania(_) => vec![],
                     };
                     let bad = bad.or_else(|| grad.iter().find(|g| win(g) != win(&a)).map(|g| format!("gradual value carries {:?} but the one-shot attributes {:?}", win(g), win(&a))));
+                    // the difficulty attributes that a performance result carries (default score, a score without a single best
+                    // judgement, all misses, a state set explicitly) must carry the same windows too
+                    let bad = bad.or_else(|| {
+                        use rosu_pp::{any::ScoreState, Performance};
+                        let n = conv.hit_objects.len() as u32;
+                        let base = || {
+                            let p = Performance::new(&map).difficulty(d.clone());
+                            if map.mode == mode { p } else { p.try_mode(mode).ok().expect("convertible") }
+                        };
+                        let perfs = [
+                            ("default score", base().calculate()),
+                            ("n300 = 0, n100 = all", base().n300(0).n100(n).calculate()),
+                            ("all misses", base().misses(n).calculate()),
+                            ("empty state", base().state(ScoreState::new()).calculate()),
+                            ("accuracy 0", base().accuracy(0.0).calculate()),
+                        ];
+                        l.checked(perfs.len() as u64);
+                        perfs.iter().find(|(_, p)| win(&p.difficulty_attributes()) != win(&a)).map(|(name, p)| format!("performance result ({name}) carries {:?} but the one-shot difficulty attributes {:?}", win(&p.difficulty_attributes()), win(&a)))
+                    });
                     if let Some(msg) = bad {
                         l.violation("calculator_vs_builder", || format!("cfg={:?} setting={s:?}\n{msg}\nspec={}\n--- .osu ---\n{}", u.cfg, spec.describe(), spec.text()));
                         return;
